@@ -1,5 +1,5 @@
 #!/bin/bash
-# usage: extract.sh <src_dir> <out.json> <cfg: x86_64|aarch64|i686|x86_64+avx2> [crate_name]
+# usage: extract.sh <src_dir> <out.json> <cfg: x86_64|aarch64|i686|x86_64+avx2|x86_64+release> [crate_name]
 # Runs `cargo +nightly check --lib` on <src_dir> with the rsfacts driver as
 # RUSTC_WORKSPACE_WRAPPER and writes the facts of <crate_name> to <out.json>.
 # Host configurations use a fresh target dir (removed afterwards).  The build-std
@@ -18,6 +18,7 @@ PERSIST=""
 case "$CFG" in
   x86_64) ;;
   x86_64+avx2) FLAGS="$FLAGS -C target-feature=+avx2" ;;
+  x86_64+release) FLAGS="$FLAGS -C debug-assertions=off -C overflow-checks=off" ;;   # what cfg(debug_assertions) hides from a dev build
   aarch64) EXTRA="--target aarch64-unknown-linux-gnu -Zbuild-std=std"; PERSIST=1 ;;
   i686) EXTRA="--target i686-unknown-linux-gnu -Zbuild-std=std"; PERSIST=1 ;;
   *) echo "unknown cfg $CFG" >&2; exit 2 ;;
